@@ -123,10 +123,19 @@ Theorem C04_src_field_set : forall fd inst a v,
     if fd_immutable fd && alist_has a (fd_name fd) then Raise ValueError else Ok (v, inst).
 Proof. exact generated_field_set. Qed.
 
-(* Structure.__delitem__ consults the required list ONLY: no immutability test (finding F6-delitem) *)
-Theorem C04_src_delitem_unguarded : forall c n,
-    Structure__delitem (delitem_heap c) (PStr n) = if is_required c n then Raise ValueError else Ok tt.
+(* Structure.__delitem__ on an instantiated instance: refused on an immutable class, for an immutable field and
+   for a required name; only otherwise is the entry removed (and __validate__ run, a rejection restoring it) *)
+Theorem C04_src_delitem : forall c n,
+    Structure__delitem (delitem_heap c) (PStr n) = delitem_decision c n.
 Proof. exact generated_delitem. Qed.
+
+(* in particular del x[n] on an instance of an immutable class, or of an immutable field, always raises ValueError
+   before anything is removed (F6-delitem, repaired in the library: this is the statement that fails to build if
+   the immutability test disappears from __delitem__) *)
+Theorem C04_src_delitem_guarded : forall c n,
+    c_immutable c || field_immutable c n = true ->
+    Structure__delitem (delitem_heap c) (PStr n) = Raise ValueError.
+Proof. exact generated_delitem_guarded. Qed.
 
 Print Assumptions C04_invariant.
 Print Assumptions C04_src_setattr_immutable.
@@ -134,7 +143,8 @@ Print Assumptions C04_src_setattr.
 Print Assumptions C04_src_wrapper_guard.
 Print Assumptions C04_src_wrapper_unbound.
 Print Assumptions C04_src_field_set.
-Print Assumptions C04_src_delitem_unguarded.
+Print Assumptions C04_src_delitem.
+Print Assumptions C04_src_delitem_guarded.
 Print Assumptions C04_invariant_tables.
 Print Assumptions C04_witness_mutator.
 Print Assumptions C04_witness_accessor.
@@ -166,7 +176,7 @@ Example C04_nonvacuous :
   abs (run ex_cfg ex_ops (world_of ex_cfg (DArr DAtom))) = Some (build ex_cfg 0 (DArr DAtom)).
 Proof. vm_compute. repeat split; reflexivity. Qed.
 
-(* with every entry guard-shaped (the tables as they would be after fixing F3/F6/F7) the unconditional form applies *)
+(* with every entry guard-shaped the unconditional form applies *)
 Definition fixed_cfg : cfg :=
   {| c_struct_imm := true; c_field_imm := false;
      c_muts := fun k => map (fun e => (fst e, CopyMutateReassign true)) (today_muts k);
@@ -181,15 +191,37 @@ Example C04_nonvacuous_tables :
   tables_guarded fixed_cfg = true /\ world_safe fixed_cfg (world_of fixed_cfg (DArr (DArr DAtom))) = true.
 Proof. vm_compute. split; reflexivity. Qed.
 
-(* ---- the full statement is refuted on the model with today's tables whenever the corresponding
-   generated fact is unsafe; each implication is checked against the CURRENT tables ---- *)
-Theorem C04_refuted_if_delitem_unguarded :
-  delitem_guarded = false -> ~ C04_statement (today true false).
+(* ---- del x['f'] and the pickle round trip on TODAY's generated facts: both former holes (F6: __delitem__
+   without an immutability test; F7: an unpickled instance without _instantiated) are closed in the library, the
+   generated facts say so, and with them the two operations leave the abstract state of an immutable class /
+   field unchanged for every value; a configuration in which either fact is false is refuted by
+   C04_witness_delitem / C04_witness_unpickle above ---- *)
+Theorem C04_delitem_unpickle_today :
+  delitem_guarded = true /\ unpickle_keeps_instantiated = true.
+Proof. vm_compute. split; reflexivity. Qed.
+
+Theorem C04_delitem_refused : forall c w,
+    c_delitem_guarded c = true -> c_struct_imm c || c_field_imm c = true ->
+    step c w ODelItem = (w, Handles.Raised).
+Proof. intros c w H1 H2. cbn [step]. rewrite H1, H2. reflexivity. Qed.
+
+Theorem C04_delitem_refused_today : forall si fi w,
+    si || fi = true -> step (today si fi) w ODelItem = (w, Handles.Raised).
 Proof.
-  intros H S. specialize (S eq_refl DAtom [ODelItem]).
-  revert S. unfold run. cbn [fold_left step today c_delitem_guarded]. rewrite H. cbn. discriminate.
+  intros si fi w H. apply C04_delitem_refused; [|exact H].
+  cbn [today c_delitem_guarded]. exact (proj1 C04_delitem_unpickle_today).
 Qed.
-Print Assumptions C04_refuted_if_delitem_unguarded.
+
+Theorem C04_unpickled_still_refuses : forall c w,
+    c_unpickle_keeps c = true ->
+    setattr_raises c (fst (step c w OUnpickle)) = setattr_raises c w.
+Proof.
+  intros c w H. cbn [step fst]. unfold setattr_raises. cbn [w_inst w_field]. rewrite H, andb_true_r. reflexivity.
+Qed.
+Print Assumptions C04_delitem_unpickle_today.
+Print Assumptions C04_delitem_refused.
+Print Assumptions C04_delitem_refused_today.
+Print Assumptions C04_unpickled_still_refuses.
 
 (* the model's prediction of the holes in today's tables (printed; the harness compares them with the
    call sites at which the implementation was seen to change) *)
